@@ -584,7 +584,10 @@ class Inliner:
             ren[kw_map[0]] = kw_map[1]
         body = [norm._Rename(ren).visit(s) for s in body]
         if skip and isinstance(call.func, ast.Attribute) and isinstance(call.func.value, ast.Call) and u(call.func.value.func) == "super":
-            pass        # super().m(..): the receiver is self itself
+            # super().m(..): the receiver is self itself; super(D, r).m(..): r
+            sa_ = call.func.value.args
+            if len(sa_) == 2 and not (isinstance(sa_[1], ast.Name) and sa_[1].id == "self"):
+                mapping[(callee.args.posonlyargs + callee.args.args)[0].arg] = sa_[1]
         elif skip and isinstance(call.func, ast.Attribute) and not (isinstance(call.func.value, ast.Name) and call.func.value.id == "self"):
             # (in the same pass as the parameters: an argument that mentions the caller's `self` is not the callee's receiver)
             selfname = (callee.args.posonlyargs + callee.args.args)[0].arg
@@ -650,8 +653,12 @@ class Inliner:
             env[star_extra[0]] = star_extra[1]
         if skip and isinstance(call.func, ast.Attribute):
             selfname = (callee.args.posonlyargs + callee.args.args)[0].arg
-            if not (isinstance(call.func.value, ast.Name) and call.func.value.id == selfname):
-                env[selfname] = copy.deepcopy(call.func.value)
+            rv_ = call.func.value
+            if isinstance(rv_, ast.Call) and u(rv_.func) == "super":
+                # super().m(..): the receiver is self itself; super(D, r).m(..): r
+                rv_ = rv_.args[1] if len(rv_.args) == 2 else ast.Name(id="self", ctx=ast.Load())
+            if not (isinstance(rv_, ast.Name) and rv_.id == selfname):
+                env[selfname] = copy.deepcopy(rv_)
         if _contains(callee, (ast.Yield, ast.YieldFrom)):
             # a generator helper `for v in S: <refuse or> yield E`: the generator expression (E' for v in S), E' refusing with raise_(..)
             real = [x for x in body if not (isinstance(x, ast.Expr) and isinstance(x.value, ast.Constant))]
@@ -2064,6 +2071,77 @@ class Canon:
                 _recurse_blocks(s_, lambda b_: self._project_nested(b_, module))
         return stmts
 
+    def helper_object_views(self, stmts, module, cls):
+        """self._p  with _p a private property the tables do not know whose body is `return <pure expression>`: the expression.
+        _Helper(args).m(..)  with _Helper a private class of the module the tables do not know: `t = _Helper(args); t.m(..)` (the
+        constructor only files pure arguments; the named object is then replaced by its fields where it is used)"""
+        known = known_defs()
+        hit = [False]
+
+        def prop_value(name):
+            if cls is None or not name.startswith("_") or name.startswith("__") or any(f"{b_.name}.{name}" in known for b_ in cls.mro):
+                return None
+            _, m = cls.find_method(name)
+            if m is None or [u(d) for d in m.decorator_list] != ["property"] or len(m.args.args) != 1:
+                return None
+            b_ = real_body(m)
+            if len(b_) != 1 or not isinstance(b_[0], ast.Return) or b_[0].value is None or not norm.is_pure(b_[0].value, _PURE_EXT):
+                return None
+            sn = m.args.args[0].arg
+            e = copy.deepcopy(b_[0].value)
+            return e if sn == "self" else norm._Rename({sn: "self"}).visit(e)
+
+        class P(ast.NodeTransformer):
+            def visit_Attribute(self, node):
+                self.generic_visit(node)
+                if isinstance(node.ctx, ast.Load) and isinstance(node.value, ast.Name) and node.value.id == "self":
+                    v = prop_value(node.attr)
+                    if v is not None:
+                        hit[0] = True
+                        return ast.fix_missing_locations(ast.copy_location(v, node))
+                return node
+        stmts = [P().visit(s_) for s_ in stmts]
+        if not hit[0]:
+            return stmts
+        stmts = norm.split_parallel_assign(stmts)
+        counter = [0]
+
+        def helper_ctor(e):
+            return isinstance(e, ast.Call) and isinstance(e.func, ast.Name) and e.func.id.startswith("_") and e.func.id in module.classes \
+                and f"class:{e.func.id}" not in known and norm.is_pure(e, _PURE_EXT)
+
+        def block(b):
+            out = []
+            for s_ in b:
+                for fld in ("body", "orelse", "finalbody"):
+                    bb = getattr(s_, fld, None)
+                    if isinstance(bb, list) and bb and isinstance(bb[0], ast.stmt) and not isinstance(s_, (ast.FunctionDef, ast.AsyncFunctionDef, ast.ClassDef)):
+                        setattr(s_, fld, block(bb))
+                if isinstance(s_, ast.Try):
+                    for h in s_.handlers:
+                        h.body = block(h.body)
+                if isinstance(s_, (ast.Expr, ast.Return, ast.Assign, ast.AugAssign, ast.AnnAssign, ast.Delete)):
+                    pre = []
+
+                    class R(ast.NodeTransformer):
+                        def visit_Lambda(self, node):
+                            return node
+
+                        def visit_Attribute(self, node):
+                            self.generic_visit(node)
+                            if helper_ctor(node.value):
+                                counter[0] += 1
+                                t = f"{node.value.func.id.lstrip('_').lower()}{counter[0]}_"
+                                pre.append(ast.fix_missing_locations(ast.copy_location(ast.Assign(targets=[ast.Name(id=t, ctx=ast.Store())], value=node.value), s_)))
+                                node.value = ast.copy_location(ast.Name(id=t, ctx=ast.Load()), node.value)
+                            return node
+                    if not any(isinstance(n, (ast.GeneratorExp, ast.ListComp, ast.SetComp, ast.DictComp, ast.IfExp, ast.BoolOp)) for n in ast.walk(s_)):
+                        s_ = R().visit(s_)
+                        out += pre
+                out.append(s_)
+            return out
+        return block(stmts)
+
     def _project_helper_objects(self, stmts, module):
         """x = _Helper(a, b)  with _Helper a private dataclass the tables do not know (a record introduced by a refactoring):
         x.field is the constructor argument, x[k] / x.m(k) the one-line accessor with the fields written in.  All or nothing: if x is
@@ -2861,33 +2939,48 @@ class Canon:
             return len(b_) == 1 and isinstance(b_[0], ast.Return) and b_[0].value is not None and norm.is_pure(b_[0].value, _PURE_EXT) \
                 and not m.decorator_list and not m.args.vararg and not m.args.kwarg and not any(isinstance(n, (ast.Yield, ast.YieldFrom)) for n in ast.walk(m))
 
+        def explicit_super(m_, k_):
+            """m_ (defined in class k_) with its zero-argument super() calls written out as super(k_, <its receiver>): they ascend
+            from ITS class along the receiver's MRO, wherever the body ends up after inlining"""
+            if not any(isinstance(n, ast.Call) and u(n.func) == "super" and not n.args for n in ast.walk(m_)) or not m_.args.args:
+                return m_
+            m2 = copy.deepcopy(m_)
+            sn = m2.args.args[0].arg
+            for n in ast.walk(m2):
+                if isinstance(n, ast.Call) and u(n.func) == "super" and not n.args:
+                    n.args = [ast.Name(id=k_.name, ctx=ast.Load()), ast.Name(id=sn, ctx=ast.Load())]
+            ast.fix_missing_locations(m2)
+            self._keepalive.append(m2)
+            return m2
+
         def lookup(call):
             f = call.func
-            if supers and cls is not None and isinstance(f, ast.Attribute) and isinstance(f.value, ast.Call) and u(f.value.func) == "super" \
-                    and (not f.value.args or (len(f.value.args) == 2 and isinstance(f.value.args[0], ast.Name))):
+            if isinstance(f, ast.Attribute) and isinstance(f.value, ast.Call) and u(f.value.func) == "super" \
+                    and (not f.value.args or (len(f.value.args) == 2 and all(isinstance(a_, ast.Name) for a_ in f.value.args))):
                 # super().m(..) inside a method defined in class D: the next definition of m after D along the receiver's MRO.
-                # (inside an inlined body the defining class is written out: super(D, self), see below)
-                if f.value.args:
-                    owner = next((k_ for k_ in cls.mro if k_.name == f.value.args[0].id), None)
+                # (inside an inlined body the defining class and the receiver are written out: super(D, r), see explicit_super)
+                sa = f.value.args
+                recv = sa[1].id if sa else "self"
+                rk = cls if recv == "self" else local_types.get(recv)
+                if sa:
+                    pool = rk.mro if rk is not None else [c_ for m_ in self.prog.modules.values() for c_ in m_.classes.values()]
+                    named = [k_ for k_ in pool if k_.name == sa[0].id]
+                    owner = named[0] if len(named) == 1 else None
                 else:
-                    owner = next((k_ for k_ in cls.mro if fn in k_.methods.values()), None)
-                if owner is not None and owner in cls.mro:
-                    for k_ in cls.mro[cls.mro.index(owner) + 1:]:
-                        if f.attr in k_.methods:
-                            m_ = k_.methods[f.attr]
-                            if not any(u(d) in ("property", "staticmethod", "classmethod", "cached_property") for d in m_.decorator_list):
-                                if any(isinstance(n, ast.Call) and u(n.func) == "super" and not n.args for n in ast.walk(m_)):
-                                    # its own super() calls ascend from ITS class, not from the method being analysed
-                                    m2 = copy.deepcopy(m_)
-                                    sn = m2.args.args[0].arg if m2.args.args else "self"
-                                    for n in ast.walk(m2):
-                                        if isinstance(n, ast.Call) and u(n.func) == "super" and not n.args:
-                                            n.args = [ast.Name(id=k_.name, ctx=ast.Load()), ast.Name(id=sn, ctx=ast.Load())]
-                                    ast.fix_missing_locations(m2)
-                                    self._keepalive.append(m2)
-                                    return m2, True, prep
-                                return m_, True, prep
-                            break
+                    owner = next((k_ for k_ in cls.mro if fn in k_.methods.values()), None) if cls is not None else None
+                if owner is None:
+                    return None
+                mro = rk.mro if rk is not None and owner in rk.mro else owner.mro        # (statically: the receiver is an instance of the class that spelled the call)
+                name = f.attr
+                unknown_private = name.startswith("_") and not name.startswith("__") and name not in keep and not any(f"{b_.name}.{name}" in known for b_ in mro)
+                if not unknown_private and not (supers and recv == "self" and cls is not None):
+                    return None
+                for k_ in mro[mro.index(owner) + 1:]:
+                    if name in k_.methods:
+                        m_ = k_.methods[name]
+                        if not any(u(d) in ("property", "staticmethod", "classmethod", "cached_property") for d in m_.decorator_list):
+                            return explicit_super(m_, k_), True, prep
+                        break
                 return None
             if isinstance(f, ast.Attribute) and isinstance(f.value, ast.Name) and (
                     (f.value.id == "self" and cls is not None) or f.value.id in local_types):
@@ -2895,7 +2988,7 @@ class Canon:
                 name = f.attr
                 if name in keep:
                     return None
-                _, m = k.find_method(name)
+                kd, m = k.find_method(name)
                 if m is None:
                     return None
                 if not (name in inline or (name.startswith("_") and not name.startswith("__") and f"{k.name}.{name}" not in known
@@ -2906,7 +2999,7 @@ class Canon:
                     if any(u(d) == "staticmethod" for d in m.decorator_list):
                         return m, False, prep
                     return None
-                return m, True, prep
+                return explicit_super(m, kd), True, prep
             if isinstance(f, ast.Attribute) and norm.is_reference(f.value) and f.attr.startswith("_") and not f.attr.startswith("__") and f.attr not in keep:
                 # r._m(..) with _m a private method no table knows, defined by a few classes of the program: whatever r is, the call
                 # runs the definition of r's class: `if isinstance(r, A): <A._m> elif isinstance(r, B): <B._m> ..` (devirtualised)
@@ -3199,6 +3292,7 @@ class Canon:
         b = self.mapping_mixins(b, module, cls)
         b = norm.lower_reduce(b)
         b = self.explicit_base_init(b, module, cls)
+        b = self.helper_object_views(b, module, cls)
         look = self._lookup(module, cls, fn, set(inline), set(keep), accessors, supers)
         from .genloop import inline_generator_loops, inline_guard_helpers
         b = inline_generator_loops(b, look)       # loops over unknown generator helpers: the helper's loop with the body at its yield
